@@ -14,6 +14,7 @@
 //!   s / S            order-insensitive digest: every section sorted (s: hashes, S: full text)
 //!   R<line>          one REPL line: CommandRunner::try_run_command (real `save` etc.), else interpret + push_to_history
 //!   L<path>          content of the file at <path> (what `save` wrote)
+//!   A<code>          parse only: numbat::verif::syntax::dump_ast (statement trees, or ERR <kind>)
 //!   U<module>        can `use <module>` still be imported on a CLONE, and what does it add?
 //! output line: one item per I/F/J/D/d/U field, separated by TAB (escaped the same way)
 //!   I → ok|<value or ->|<type or ->|<prints>      or  err|<stage>:<Kind>|<prints>   or  PANIC
@@ -397,6 +398,13 @@ fn run_case(line: &str) -> String {
                     Ok(Err(_)) => outs.push("cmderr".into()),
                     Err(_) => outs.push("PANIC".into()),
                 }
+            }
+            "A" => {
+                let code = unesc(rest);
+                outs.push(
+                    catch_unwind(AssertUnwindSafe(|| numbat::verif::syntax::dump_ast(&code)))
+                        .unwrap_or_else(|_| "PANIC".into()),
+                );
             }
             "L" => {
                 outs.push(std::fs::read_to_string(unesc(rest)).unwrap_or_else(|e| format!("@@IOERR {e}")));
